@@ -198,3 +198,16 @@ package api
 //@   modifies nothing
 //@ lemma pin_mode_text_roundtrip: forall m PinMode :: (m == PinModeRecursive || m == PinModeDirect) ==> pinModeOfName(pinModeName(m)) == m
 //@   property C08
+
+// ---- the cluster-wide status record: one entry per peer, filed under the peer's encoded ID ----
+//@ spec func peerKey(p peer.ID) string = libfn("peer.Encode", 0, p)
+//@ func (gpi *GlobalPinInfo) Add
+//@   property C06
+//@   requires gpi != nil
+//@   ensures [new-report-exists] allocated(gpi.PeerMap[peerKey(pi.Peer)])
+//@   ensures [peer-filed] haskey(gpi.PeerMap, peerKey(pi.Peer)) && gpi.PeerMap[peerKey(pi.Peer)] != nil && gpi.PeerMap[peerKey(pi.Peer)].Status == pi.Status
+//@   ensures [other-peers-kept] forall k string :: k != peerKey(pi.Peer) ==> (haskey(gpi.PeerMap, k) <==> haskey(old(gpi.PeerMap), k))
+//@   ensures [other-entries-kept] forall k string :: k != peerKey(pi.Peer) && haskey(old(gpi.PeerMap), k) ==> gpi.PeerMap[k] == old(gpi.PeerMap[k])
+//@   ensures [other-records-untouched] forall g *GlobalPinInfo :: g != gpi ==> *g == old(*g)
+//@   ensures [existing-reports-untouched] forall q *PinInfoShort :: !fresh(q) ==> *q == old(*q)
+//@   modifies heap(GlobalPinInfo), heap(PinInfoShort)
